@@ -34,6 +34,10 @@ def _method_calls_on(node, var):
     return [c for c in A.calls(node) if isinstance(c.func, ast.Attribute) and isinstance(c.func.value, ast.Name) and c.func.value.id == var]
 
 
+META["technique"] += "; fixpoint-shape rule for the @group expansion"
+META["level"] += " (R5) Licenses._expand_groups repeats its pass over the group table (loop or recursion), so nested @group references are resolved."
+
+
 def run(ctx):
     P = ctx.program
     ctx.explanation = META["level"]
@@ -261,6 +265,21 @@ def run(ctx):
               ("pkgcore.ebuild.misc", "incremental_expansion_license", (), "")])
     ctx.floor("R4", 8)
 
+    # ---- R5 @group references are expanded until none is left ------------------------------------------------------
+    # a group may name a group that names a group; one pass over the table resolves one level only (and which level
+    # depends on dict order).  Necessary: the expansion pass is repeated (a loop around it, or recursion).
+    eg = P.func("pkgcore.ebuild.repo_objs", "Licenses._expand_groups")
+    passes = [n for n in A.body_walk(eg.node) if isinstance(n, ast.For) and "items" in A.unparse(n.iter)]
+    ctx.require(passes, "Licenses._expand_groups: the pass over the group table was not found")
+    repeated = any(isinstance(p_, ast.While) for p_ in A.parents(passes[0])) or any((A.call_attr(c) or "") == "_expand_groups" for c in A.calls(eg.node)) \
+        or any(isinstance(p_, ast.For) for p_ in A.parents(passes[0]))
+    ctx.check("R5", eg, repeated, "group-expansion-repeats", "the expansion of @group references is repeated until no reference is left",
+              "Licenses._expand_groups makes a single pass over the groups: a group that references a group which itself references another keeps a literal '@name' token, "
+              "which no license ever equals — packages under the inner group's licenses are filtered out although ACCEPT_LICENSE accepts them", node=passes[0])
+    el = P.func("pkgcore.ebuild.misc", "incremental_expansion_license")
+    ctx.check("R5", el, any(isinstance(n, ast.Constant) and n.value == "@" for n in ast.walk(el.node)), "license-expander-knows-groups", "incremental_expansion_license treats '@' tokens as group references")
+    ctx.floor("R5", 2)
+
 MUTANTS = [
     {"name": "repo-masks-last", "file": "src/pkgcore/ebuild/domain.py", "old": "        global_masks = [((), repo.pkg_masks)]\n        if profile:\n            global_masks.extend(self.profile._incremental_masks)\n        masks = set()\n        for neg, pos in global_masks:\n            masks.difference_update(neg)\n            masks.update(pos)\n", "new": "        global_masks = []\n        if profile:\n            global_masks.extend(self.profile._incremental_masks)\n        masks = set()\n        for neg, pos in global_masks:\n            masks.difference_update(neg)\n            masks.update(pos)\n        masks.update(repo.pkg_masks)\n", "rule": "R1"},
     {"name": "starstar-needs-keyword", "file": "src/pkgcore/ebuild/domain.py", "old": "        if \"**\" in allowed:\n            return True\n", "new": "        if \"**\" in allowed and pkg_keywords:\n            return True\n", "rule": "R2"},
@@ -269,5 +288,8 @@ MUTANTS = [
     {"name": "mask-not-negated", "file": "src/pkgcore/ebuild/domain.py", "old": "    masking = make_mask_filter(masks, negate=True)", "new": "    masking = make_mask_filter(masks, negate=False)", "rule": "R1"},
     {"name": "star-accepts-testing", "file": "src/pkgcore/ebuild/domain.py", "old": "                if k[0] not in \"-~\":", "new": "                if k[0] not in \"-\":", "rule": "R2"},
     {"name": "layer-add-before-remove", "file": "src/pkgcore/ebuild/domain.py", "old": "        for neg, pos in global_masks:\n            masks.difference_update(neg)\n            masks.update(pos)", "new": "        for neg, pos in global_masks:\n            masks.update(pos)\n            masks.difference_update(neg)", "rule": "R1"},
+]
+MUTANTS += [
+    {"name": "license-groups-single-pass", "file": "src/pkgcore/ebuild/repo_objs.py", "old": "        keep_going = True\n        while keep_going:\n            keep_going = False\n", "new": "        keep_going = True\n        if keep_going:\n            keep_going = False\n", "rule": "R5"},
 ]
 TWINS = []
